@@ -1,9 +1,11 @@
 (* EBLIF engine, connectivity clause of C18: the abstract reading of one section ([nst], [step_n]) and
    the relation [R] between the model called [nm] and that reading.  [R] says: the number of
    instances, the direction of every port name, the library, the declared flag are what the statements
-   read so far give, and - outside black boxes - wire (c, k) of every cable no .conn has touched
-   holds exactly the pins the statements attached to net bit (c, k) [B1]; once a .conn was read,
-   two pins share a wire exactly when they are attached to equal or .conn-joined net bits [B2]. *)
+   read so far give, and - outside black boxes - the cables are those of a reader whose table of merged
+   wires is some [al] with [NI]: wire (c, k) holds exactly the pins the statements attached to a net
+   bit that stands for (c, k) under [al], and two net bits stand for the same wire exactly when the
+   .conn statements read so far join them (in any order, through any chain).  For the model being read
+   the table is the reader's own ([RX]).  [B2], what the property says, follows from [NI]. *)
 From Coq Require Import List Arith NArith Bool Lia Permutation.
 From SV Require Import Base.Base Fmt.Blif Fmt.BlifRead Fmt.BlifSpec
   Proofs.BlifBase Proofs.BlifWF Proofs.BlifExec Proofs.BlifNetsBase Proofs.BlifNetsView.
@@ -83,13 +85,65 @@ Fixpoint run_g (nm cur : str) (ss : list stmt) (st : nst) : nst :=
   | x :: r => run_g nm (next_c cur x) r (step_g nm cur x st)
   end.
 
-(* cables the .conn statements read so far have consumed or created *)
-Definition touched (cs : list (netbit * netbit)) : list str :=
-  flat_map (fun xy => [fst (fst xy); fst (snd xy);
-                       merge_name (fst (fst xy)) (snd (fst xy)) (fst (snd xy)) (snd (snd xy))]) cs.
+(* ---------- wires that exist ---------- *)
+Definition has_wire (c : str) (k : nat) (cs : list cable) : Prop :=
+  exists x, find_cable c cs = Some x /\ k < length (c_wires x).
 
-Definition B1 (cs : list cable) (att : list (pinref * netbit)) (tch : list str) : Prop :=
-  forall c, ~ In c tch -> forall pr k, In pr (wire_at c k cs) <-> In (pr, (c, k)) att.
+Lemma length_pad_wires k ws : k < length (pad_wires k ws) /\ length ws <= length (pad_wires k ws).
+Proof.
+  revert ws. induction k as [|k IH]; intros [|w ws]; cbn; try lia.
+  - destruct (IH []) as [A B]. lia.
+  - destruct (IH ws) as [A B]. lia.
+Qed.
+
+Lemma has_wire_ensure c k cs : has_wire c k (ensure_wire c k cs).
+Proof.
+  unfold has_wire, ensure_wire. destruct (find_cable c cs) as [x|] eqn:E.
+  - rewrite find_cable_upd, E. pose proof (find_cable_In _ _ _ E) as [_ Hn]. rewrite Hn, str_eqb_refl.
+    eexists. split; [reflexivity|]. cbn [c_wires]. apply length_pad_wires.
+  - rewrite find_cable_app, E. cbn [c_name]. rewrite str_eqb_refl. eexists. split; [reflexivity|]. cbn [c_wires].
+    apply length_pad_wires.
+Qed.
+
+Lemma has_wire_upd c f cs c' k' :
+  (forall ws, length ws <= length (f ws)) -> has_wire c' k' cs -> has_wire c' k' (upd_cable c f cs).
+Proof.
+  intros Hf [x [Hx Hk]]. unfold has_wire. rewrite find_cable_upd, Hx. eexists. split; [reflexivity|].
+  destruct (str_eqb (c_name x) c); [|exact Hk]. cbn [c_wires]. specialize (Hf (c_wires x)). lia.
+Qed.
+
+Lemma has_wire_ensure_keeps c k cs c' k' : has_wire c' k' cs -> has_wire c' k' (ensure_wire c k cs).
+Proof.
+  intros H. unfold ensure_wire. destruct (find_cable c cs) as [y|] eqn:E.
+  - apply has_wire_upd; [|exact H]. intro ws. apply length_pad_wires.
+  - destruct H as [x [Hx Hk]]. unfold has_wire. rewrite find_cable_app, Hx. eauto.
+Qed.
+
+Lemma length_add_to_wire k pr ws : length ws <= length (add_to_wire k pr ws).
+Proof. revert ws. induction k as [|k IH]; intros [|w ws]; cbn; try lia. specialize (IH ws). lia. Qed.
+
+Lemma has_wire_set_wire c k f cs c' k' : has_wire c' k' cs -> has_wire c' k' (set_wire c k f cs).
+Proof. intro H. unfold set_wire. apply has_wire_upd; [|exact H]. intro ws. rewrite length_upd_nth. lia. Qed.
+
+(* ---------- the table of merged wires ---------- *)
+Lemma merged_into_app al l2 z : merged_into (al ++ l2) z = merged_into l2 (merged_into al z).
+Proof.
+  revert z. induction al as [|[k v] al IH]; intro z; cbn [app merged_into]; [reflexivity|].
+  destruct (nb_eqb k z); apply IH.
+Qed.
+
+Lemma merged_into_snoc al y x z :
+  merged_into (al ++ [(y, x)]) z = if nb_eqb y (merged_into al z) then x else merged_into al z.
+Proof. rewrite merged_into_app. reflexivity. Qed.
+
+(* a net bit stands for itself or for a wire some entry names as the survivor *)
+Lemma merged_into_cases al z : merged_into al z = z \/ exists k, In (k, merged_into al z) al.
+Proof.
+  revert z. induction al as [|[k v] al IH]; intro z; cbn [merged_into]; [left; reflexivity|].
+  destruct (nb_eqb k z).
+  - destruct (IH v) as [E|[k' H]]; [rewrite E; right; exists k; left; reflexivity|right; exists k'; right; exact H].
+  - destruct (IH z) as [E|[k' H]]; [left; exact E|right; exists k'; right; exact H].
+Qed.
 
 Definition same_wire_c (cs : list cable) (a b : pinref) : Prop :=
   exists c w, In c cs /\ In w (c_wires c) /\ In a w /\ In b w.
@@ -98,28 +152,69 @@ Definition B2 (cs : list cable) (att : list (pinref * netbit)) (conns : list (ne
   forall a b, same_wire_c cs a b <->
     exists x y, In (a, x) att /\ In (b, y) att /\ same_bit conns x y.
 
+(* the cables of a model under construction, the attachments and .conn statements read so far, and the
+   reader's table of merged wires *)
+Record NI (cs : list cable) (att : list (pinref * netbit)) (conns : list (netbit * netbit)) (al : mtable) : Prop := {
+  n_wire : forall c k pr, In pr (wire_at c k cs) <-> exists y, In (pr, y) att /\ merged_into al y = (c, k);
+  n_root : forall y z, merged_into al y = merged_into al z <-> same_bit conns y z;
+  n_has : forall kv, In kv al -> has_wire (fst (snd kv)) (snd (snd kv)) cs }.
+
+Lemma same_bit_nil x y : same_bit [] x y -> x = y.
+Proof. induction 1; congruence || contradiction. Qed.
+
+Lemma NI_nil : NI [] [] [] [].
+Proof.
+  constructor.
+  - intros c k pr. unfold wire_at. cbn. split; [intros []|intros [y [[] _]]].
+  - intros y z. cbn [merged_into]. split; [intros ->; apply sb_refl|apply same_bit_nil].
+  - intros kv [].
+Qed.
+
+Lemma sw_iff cs a b : NoDup (map c_name cs) ->
+  (same_wire_c cs a b <-> exists c k, In a (wire_at c k cs) /\ In b (wire_at c k cs)).
+Proof.
+  intro Hnd. split.
+  - intros [c [w [Hc [Hw [Ha Hb]]]]]. destruct (wire_is_wire_at cs c w Hnd Hc Hw) as [k Hk].
+    exists (c_name c), k. rewrite Hk. auto.
+  - intros [c [k [Ha Hb]]]. destruct (wire_at_is_wire _ _ _ _ Ha) as [x [Hx Hw]]. exists x, (wire_at c k cs). auto.
+Qed.
+
+(* what the property says: two pins share a wire exactly when the section attaches them to net bits that
+   are the same net *)
+Lemma NI_B2 cs att conns al : NoDup (map c_name cs) -> NI cs att conns al -> B2 cs att conns.
+Proof.
+  intros Hnd [N1 N2 _] a b. rewrite (sw_iff _ _ _ Hnd). split.
+  - intros [c [k [Ha Hb]]]. apply N1 in Ha as [y [A1 A2]]. apply N1 in Hb as [z [B1 B2']].
+    exists y, z. repeat split; auto. apply N2. congruence.
+  - intros [y [z [A [B S]]]]. apply N2 in S. destruct (merged_into al y) as [c k] eqn:E. exists c, k.
+    split; apply N1; [exists y|exists z]; split; auto; congruence.
+Qed.
+
 Record R (nm : str) (m : model) (st : nst) : Prop := {
   r_idx : length (m_insts m) = n_idx st;
   r_dir : reserved nm = false -> forall p, port_dir p m = dirf (mem p (n_inn st)) (mem p (n_outn st));
   r_ins : forall p, mem p (n_ins st) = mem p (n_inn st);
   r_lib : m_lib m = n_lib st;
   r_def : n_def st = true -> m_defined m = true;
-  r_net : n_bb st = false -> B1 (m_cables m) (n_att st) (touched (n_conns st));
-  r_b2 : n_bb st = false -> n_conns st <> [] -> B2 (m_cables m) (n_att st) (n_conns st);
+  r_net : n_bb st = false -> exists al, NI (m_cables m) (n_att st) (n_conns st) al;
   r_cab0 : n_att st = [] -> n_conns st = [] -> m_cables m = [];
   r_bb : n_bb st = true -> m_cables m = [] }.
 
-Lemma R_veq nm m m' st : veq m m' -> R nm m st -> R nm m' st.
+(* the same with the reader's own table, for the model that is being read *)
+Definition RX (nm cur : str) (al : mtable) (m : model) (st : nst) : Prop :=
+  R nm m st /\ (nm = cur -> n_bb st = false -> NI (m_cables m) (n_att st) (n_conns st) al).
+
+Lemma R_vcore' nm m m' st : vcore m m' -> (reserved nm = false -> forall p, port_dir p m' = port_dir p m) -> R nm m st -> R nm m' st.
 Proof.
-  intros [[V1 [V2 [V3 V4]]] V5] [R1 R2 R3 R4 R5 R6 R7 R8 R9].
-  constructor; rewrite ?V1, ?V2, ?V3, ?V4; auto. intros Hr p. rewrite V5. apply R2. exact Hr.
+  intros [V1 [V2 [V3 V4]]] V5 [R1 R2 R3 R4 R5 R6 R7 R8].
+  constructor; rewrite ?V1, ?V2, ?V3, ?V4; auto. intros Hr p. rewrite (V5 Hr). apply R2. exact Hr.
 Qed.
 
+Lemma R_veq nm m m' st : veq m m' -> R nm m st -> R nm m' st.
+Proof. intros [V V5]. apply R_vcore'; [exact V|intros _; exact V5]. Qed.
+
 Lemma R_vcore nm m m' st : reserved nm = true -> vcore m m' -> R nm m st -> R nm m' st.
-Proof.
-  intros Hres [V1 [V2 [V3 V4]]] [R1 R2 R3 R4 R5 R6 R7 R8 R9].
-  constructor; rewrite ?V1, ?V2, ?V3, ?V4; auto. intro Hr. congruence.
-Qed.
+Proof. intros Hres V. apply R_vcore'; [exact V|]. intro Hr. congruence. Qed.
 
 Lemma R_geq nm m m' st : geq m m' -> R nm m st -> R nm m' st.
 Proof. intro H. apply R_veq. apply geq_veq. exact H. Qed.
@@ -127,49 +222,86 @@ Proof. intro H. apply R_veq. apply geq_veq. exact H. Qed.
 Lemma R_eq nm m m' st : m' = m -> R nm m st -> R nm m' st.
 Proof. intros ->. auto. Qed.
 
+Lemma RX_veq nm cur al m m' st : veq m m' -> RX nm cur al m st -> RX nm cur al m' st.
+Proof.
+  intros V [HR HN]. split; [eapply R_veq; eauto|]. destruct V as [[V1 _] _]. rewrite V1. exact HN.
+Qed.
+
+Lemma RX_vcore nm cur al m m' st : reserved nm = true -> vcore m m' -> RX nm cur al m st -> RX nm cur al m' st.
+Proof.
+  intros Hr V [HR HN]. split; [eapply R_vcore; eauto|]. destruct V as [V1 _]. rewrite V1. exact HN.
+Qed.
+
+Lemma RX_geq nm cur al m m' st : geq m m' -> RX nm cur al m st -> RX nm cur al m' st.
+Proof. intro H. apply RX_veq. apply geq_veq. exact H. Qed.
+
+Lemma RX_R nm cur al m st : RX nm cur al m st -> R nm m st.
+Proof. intros [H _]. exact H. Qed.
+
+(* a model that is not being read: nothing is asked of the table *)
+Lemma RX_other nm cur al m st : nm <> cur -> R nm m st -> RX nm cur al m st.
+Proof. intros Hne HR. split; [exact HR|]. intro E. contradiction. Qed.
+
 Lemma R_st0 nm : R nm (new_model nm) st0.
 Proof.
   constructor; cbn; auto; try discriminate.
-  - intros _ c _ pr k. unfold wire_at. cbn. tauto.
-  - intros _ H. contradiction.
-Qed.
-
-(* ---------- B2 from B1 while no .conn was read ---------- *)
-Lemma b2_of_b1 cs att : NoDup (map c_name cs) -> B1 cs att [] -> B2 cs att [].
-Proof.
-  intros Hnd H1 a b. split.
-  - intros [c [w [Hc [Hw [Ha Hb]]]]]. destruct (wire_is_wire_at cs c w Hnd Hc Hw) as [k Hk].
-    exists (c_name c, k), (c_name c, k). subst w. repeat split.
-    + apply (H1 (c_name c) (fun f => f)). exact Ha.
-    + apply (H1 (c_name c) (fun f => f)). exact Hb.
-    + left. reflexivity.
-  - intros [x [y [Ha [Hb Hs]]]]. destruct Hs as [<-|[[]|[]]]. destruct x as [c k].
-    apply (H1 c (fun f => f)) in Ha. apply (H1 c (fun f => f)) in Hb.
-    destruct (wire_at_is_wire _ _ _ _ Ha) as [xc [Hx Hw]]. exists xc, (wire_at c k cs). auto.
+  intros _. exists []. apply NI_nil.
 Qed.
 
 (* ---------- one pin joined to a net bit ---------- *)
-Lemma B1_connect pr c k m m' att :
-  connect pr c k m = Ok m' -> B1 (m_cables m) att [] -> B1 (m_cables m') (att ++ [(pr, (c, k))]) [].
+Lemma wire_at_connect_to al pr c k m m' c' k' :
+  connect_to al pr c k m = Ok m' ->
+  (forall kv, In kv al -> has_wire (fst (snd kv)) (snd (snd kv)) (m_cables m)) ->
+  wire_at c' k' (m_cables m') =
+  wire_at c' k' (m_cables m) ++ (if nb_eqb (c', k') (merged_into al (c, k)) then [pr] else []).
 Proof.
-  intros H H1 c' _ pr' k'. rewrite (wire_at_connect _ _ _ _ _ c' k' H), !in_app_iff, (H1 c' (fun f => f)).
-  cbn [In]. destruct (str_eqb c' c) eqn:E1; cbn [andb].
-  - apply str_eqb_spec in E1. subst c'. destruct (Nat.eqb k' k) eqn:E2.
-    + apply Nat.eqb_eq in E2. subst k'. cbn [In]. split; intros [A|[A|[]]]; auto; [subst; auto|inversion A; auto].
-    + apply Nat.eqb_neq in E2. cbn [In]. split; [intros [A|[]]; auto|intros [A|[A|[]]]; auto]. inversion A. congruence.
-  - apply str_eqb_false in E1. cbn [In]. split; [intros [A|[]]; auto|intros [A|[A|[]]]; auto]. inversion A. congruence.
+  unfold connect_to. destruct (connected m pr); [discriminate|]. intros H Hh. inversion H; subst m'. clear H.
+  cbn [set_cables m_cables]. set (t := merged_into al (c, k)). set (cs := ensure_wire c k (m_cables m)).
+  assert (Ht : exists x, find_cable (fst t) cs = Some x).
+  { destruct (merged_into_cases al (c, k)) as [E|[k0 Hin]]; fold t in E || fold t in Hin.
+    - rewrite E. cbn [fst]. apply ensure_wire_finds.
+    - destruct (has_wire_ensure_keeps c k _ _ _ (Hh _ Hin)) as [x [Hx _]]. cbn [snd fst] in Hx. eauto. }
+  destruct Ht as [x Hx]. rewrite wire_at_upd. rewrite <- (wire_at_ensure c k (m_cables m) c' k'). fold cs.
+  unfold nb_eqb. cbn [fst snd]. destruct (str_eqb c' (fst t)) eqn:E1; cbn [andb].
+  - apply str_eqb_spec in E1. subst c'. unfold wire_at. rewrite Hx. apply nth_add_to_wire.
+  - unfold wire_at. destruct (find_cable c' cs); rewrite app_nil_r; reflexivity.
 Qed.
 
-Lemma R_connect nm pr c k m m' st :
-  connect pr c k m = Ok m' -> n_conns st = [] -> n_bb st = false -> R nm m st ->
-  R nm m' (add_att st [(pr, (c, k))]).
+Lemma connect_to_fields al pr c k m m' :
+  connect_to al pr c k m = Ok m' ->
+  m_name m' = m_name m /\ m_ports m' = m_ports m /\ m_insts m' = m_insts m /\ m_orphans m' = m_orphans m /\
+  m_clock m' = m_clock m /\ m_lib m' = m_lib m /\ m_defined m' = m_defined m.
+Proof. unfold connect_to. destruct (connected m pr); [discriminate|]. intro H. inversion H. repeat split. Qed.
+
+Lemma NI_connect al pr c k m m' att conns :
+  connect_to al pr c k m = Ok m' -> NI (m_cables m) att conns al -> NI (m_cables m') (att ++ [(pr, (c, k))]) conns al.
 Proof.
-  intros H Hc Hb [R1 R2 R3 R4 R5 R6 R7 R8 R9].
-  destruct (connect_fields _ _ _ _ _ H) as [F1 [F2 [F3 [F4 [F5 [F6 F7]]]]]].
+  intros H [N1 N2 N3]. constructor.
+  - intros c' k' pr'. rewrite (wire_at_connect_to _ _ _ _ _ _ c' k' H N3), in_app_iff, N1. split.
+    + intros [[y [A B]]|Hin].
+      * exists y. split; [apply in_app_iff; left; exact A|exact B].
+      * destruct (nb_eqb (c', k') (merged_into al (c, k))) eqn:E; [|destruct Hin]. destruct Hin as [<-|[]].
+        apply nb_eqb_true in E. exists (c, k). split; [apply in_app_iff; right; left; reflexivity|symmetry; exact E].
+    + intros [y [A B]]. apply in_app_iff in A as [A|[A|[]]].
+      * left. exists y. auto.
+      * inversion A; subst pr' y. right. rewrite B. rewrite (proj2 (nb_eqb_true _ _) eq_refl). left. reflexivity.
+  - exact N2.
+  - intros kv Hin. specialize (N3 kv Hin). unfold connect_to in H. destruct (connected m pr); [discriminate|].
+    inversion H; subst m'. cbn [set_cables m_cables]. apply has_wire_upd; [intro ws; apply length_add_to_wire|].
+    apply has_wire_ensure_keeps. exact N3.
+Qed.
+
+Lemma RX_connect nm al pr c k m m' st :
+  connect_to al pr c k m = Ok m' -> n_bb st = false -> RX nm nm al m st ->
+  RX nm nm al m' (add_att st [(pr, (c, k))]).
+Proof.
+  intros H Hb [[R1 R2 R3 R4 R5 R6 R7 R8] HN].
+  destruct (connect_to_fields _ _ _ _ _ _ H) as [F1 [F2 [F3 [F4 [F5 [F6 F7]]]]]].
+  pose proof (NI_connect _ _ _ _ _ _ _ _ H (HN eq_refl Hb)) as N'.
+  split; [|intros _ _; exact N'].
   constructor; cbn [add_att n_idx n_ins n_inn n_outn n_att n_conns n_bb n_lib n_def]; rewrite ?F3, ?F6, ?F7; auto.
   - intros Hr p. unfold port_dir. rewrite F2. apply R2. exact Hr.
-  - intros _. rewrite Hc in *. cbn [touched flat_map] in *. apply (B1_connect _ _ _ _ _ _ H). apply R6. exact Hb.
-  - intros _ Hn. contradiction.
+  - intros _. exists al. exact N'.
   - intro Hn. apply app_eq_nil in Hn as [_ Hn]. discriminate.
   - congruence.
 Qed.
